@@ -905,12 +905,19 @@ def value_sinks(fb, fn, nid, depth=0, seen=None, ret_to=()):
                     return out
                 callee = next((g for g in fb.by_usr.get(p.get('u'), []) if g.has_cfg and i < len(g.params)), None)
                 if p.get('rcls') == fn.cls and fn.cls:
-                    # helper of the decoder itself (convert_pbf_lon): name it, look at what it does with the parameter, follow its result
-                    out.add(nm)
+                    # helper of the decoder itself: what does it do with the parameter?  A pure conversion (convert_pbf_lon) is named
+                    # and its result followed; a helper that stores the value (set_way_id) contributes the sinks inside it.
+                    sub = set()
                     if callee is not None and depth < 4:
-                        out |= {t for t in _var_uses(fb, callee, callee.params[i]['d'], depth + 1, seen) if t != 'return'}
-                    x = p['id']
-                    continue
+                        sub = _var_uses(fb, callee, callee.params[i]['d'], depth + 1, seen)
+                    stored = {t for t in sub if t != 'return'}
+                    out |= stored
+                    if not stored:
+                        out.add(nm)
+                    if callee is None or 'return' in sub or not stored:
+                        x = p['id']
+                        continue
+                    return out
                 if callee is not None and callee.file.startswith(fn.file.rsplit('/include/osmium/', 1)[0] + '/include/osmium/') and depth < 4 \
                         and not q.startswith('std::'):
                     # any other library function with a body: where does its parameter go?
